@@ -1028,7 +1028,8 @@ func (c *Ctx) checkExponentSign(rule string) {
 		return
 	}
 	dec, flt := c.SZygo.Var("DecimalRegex"), c.SZygo.Var("FloatRegex")
-	isNumberMatch := func(cond ssa.Value) bool {
+	var isNumberMatch func(cond ssa.Value) bool
+	isNumberMatch = func(cond ssa.Value) bool {
 		call, ok := cond.(*ssa.Call)
 		if !ok {
 			return false
@@ -1044,8 +1045,85 @@ func (c *Ctx) checkExponentSign(rule string) {
 		gl, ok := ld.X.(*ssa.Global)
 		return ok && (gl == dec || gl == flt)
 	}
+	plainMatch := isNumberMatch
+	// a predicate that answers true only with a number match: every value it returns is the constant false
+	// or the result of matching against the decimal / float pattern
+	numberPredicate := func(g *ssa.Function) bool {
+		if g == nil || fnPkgPath(g) != zygoPath || len(g.Blocks) == 0 || g.Signature.Results().Len() != 1 {
+			return false
+		}
+		if b, ok := g.Signature.Results().At(0).Type().Underlying().(*types.Basic); !ok || b.Kind() != types.Bool {
+			return false
+		}
+		var okVal func(v ssa.Value, depth int) bool
+		okVal = func(v ssa.Value, depth int) bool {
+			if depth > 6 {
+				return false
+			}
+			if k, ok := v.(*ssa.Const); ok && k.Value != nil && k.Value.String() == "false" {
+				return true
+			}
+			if plainMatch(v) {
+				return true
+			}
+			if ph, ok := v.(*ssa.Phi); ok {
+				for i, e := range ph.Edges {
+					if k, ok := e.(*ssa.Const); ok && k.Value != nil && k.Value.String() == "true" {
+						// `a || b`: the constant true arrives from the true side of a
+						if i >= len(ph.Block().Preds) {
+							return false
+						}
+						cond, t, _ := condBranch(ph.Block().Preds[i])
+						if cond == nil || !plainMatch(cond) || t != ph.Block() {
+							return false
+						}
+						continue
+					}
+					if !okVal(e, depth+1) {
+						return false
+					}
+				}
+				return true
+			}
+			return false
+		}
+		for _, r := range returnsOf(g) {
+			if !okVal(r.Results[0], 0) {
+				return false
+			}
+		}
+		return true
+	}
+	isNumberMatch = func(cond ssa.Value) bool {
+		if plainMatch(cond) {
+			return true
+		}
+		if call, ok := cond.(*ssa.Call); ok {
+			return numberPredicate(call.Call.StaticCallee())
+		}
+		return false
+	}
 	// blocks entered when the rune two back is e / E
 	var eBlocks []*ssa.BasicBlock
+	// (the test may live in a predicate helper: then the search starts at the branch on the helper's answer)
+	eachInstr(lx, func(b *ssa.BasicBlock, i int, in ssa.Instruction) {
+		call, ok := in.(*ssa.Call)
+		if !ok {
+			return
+		}
+		g := call.Call.StaticCallee()
+		if g == nil || g == two || fnPkgPath(g) != zygoPath || len(callsOf(g, two)) == 0 || !numberPredicate(g) {
+			return
+		}
+		if call.Referrers() == nil {
+			return
+		}
+		for _, r := range *call.Referrers() {
+			if iff, ok := r.(*ssa.If); ok {
+				eBlocks = append(eBlocks, iff.Block())
+			}
+		}
+	})
 	for _, site := range callsOf(lx, two) {
 		v, ok := site.(ssa.Value)
 		if !ok || v.Referrers() == nil {
